@@ -89,7 +89,7 @@ def gen_size_expr(rng, syms):
 
 
 class Gen:
-    def __init__(self, rng, max_depth=3, max_children=3, p_rep=0.2, p_through=0.1, allow_other=True, p_shuffle=0.5, qubits=False, root_sized=False):
+    def __init__(self, rng, max_depth=3, max_children=3, p_rep=0.2, p_through=0.1, allow_other=True, p_shuffle=0.5, qubits=False, root_sized=False, mixed_types=0.0):
         self.rng = rng
         self.max_depth = max_depth
         self.max_children = max_children
@@ -99,6 +99,7 @@ class Gen:
         self.p_shuffle = p_shuffle
         self.qubits = qubits     # C16: non-negative sizes, local_ancillae resources
         self.root_sized = root_sized   # C13: every input port of the root declares a size (see finding F13)
+        self.mixed_types = mixed_types  # C09: a resource name additive in one leaf and multiplicative in a sibling
         self.nodes = 0
 
     def subset(self, pool, lo, hi):
@@ -146,6 +147,10 @@ class Gen:
         if not self.allow_other:
             pool = [r for r in pool if r[1] in ("additive", "multiplicative")]
         resources = [{"name": n, "type": t, "value": gen_expr(rng, scope_l, 2)} for n, t in self.subset(pool, 1, 3)]
+        if self.mixed_types and not under_rep:
+            for x in resources:
+                if x["type"] in ("additive", "multiplicative") and rng.random() < self.mixed_types:
+                    x["type"] = "multiplicative" if x["type"] == "additive" else "additive"
         if self.qubits and rng.random() < 0.5:
             resources.append({"name": "local_ancillae", "type": "qubits", "value": gen_size_expr(rng, scope)})
         if params and rng.random() < 0.15:
